@@ -16,7 +16,7 @@ theorem finishCall_eff (g : Cfg) (r : S × Ret) :
   · rename_i he
     simp only
     split
-    · simp [he]
+    · simp [he, stopTimer]
     · have hD := D_cModWrite g r.1
       simp only [D, Prod.mk.injEq] at hD
       obtain ⟨d1, _, _, _, d5, d6⟩ := hD
